@@ -20,6 +20,7 @@ def is_test_body(b):
 def run(R):
     _run15(R)
     r6(R)
+    r7(R)
 
 
 def _run15(R):
@@ -582,3 +583,72 @@ def r6(R):
                  % (b.short, b.local_name(i)), ok, where=b.where(ins[0].ln if ins else None),
                  detail=None if ok else "the set remembers every quoted triple expanded during the whole call, not just the current path: the second "
                  "occurrence of a shared sub-term is refused and a well-formed term decodes to nothing (`unknown` in query results)")
+
+
+def r7(R):
+    """the identifier counter never moves backwards"""
+    prog = R.prog
+    R.rule("C15-R7", "identifiers are never handed out twice: every assignment to Dictionary.next_id outside the constructors stores a value that is at "
+                     "least the counter's previous value - the old value plus something, or a `max` in which the old value takes part (also through "
+                     "an accumulator that starts from it). A counter taken from elsewhere (the other dictionary of a merge, a recount of the entries) "
+                     "can be smaller: the next new term then receives an identifier that an older term owns, and that identifier changes its meaning")
+    n = 0
+    for b in sorted(prog.bodies.values(), key=lambda x: x.key):
+        if b.crate != "shared" or "::tests::" in b.key or b.derived:
+            continue
+        for bb, i, pl, rv, st in b.assigns():
+            if not F.place_has_field(pl, DICT, "next_id"):
+                continue
+            if b.name in ("new", "default", "with_capacity", "clear", "from_parts", "deserialize"):
+                continue
+            n += 1
+            R.saw(b)
+            base = pl["l"]
+
+            def ge_old(op, assume, depth=0):
+                if depth > 12:
+                    return False
+                p = F.op_place(op)
+                if p is None:
+                    return False
+                if F.place_has_field(p, DICT, "next_id") and (p["l"] == base or b.alias_root(p["l"]) == b.alias_root(base)):
+                    return True
+                if p["p"] and not all(e["k"] in ("field", "deref") for e in p["p"]):
+                    return False
+                l = p["l"]
+                if l in assume:
+                    return True
+                ds = [d for d in b.defs().get(l, []) if d[0] in ("assign", "call", "partial", "partial_call")]
+                if not ds or any(d[0] == "arg" for d in b.defs().get(l, [])):
+                    return False
+                res = []
+                for d in ds:
+                    if d[0] in ("call", "partial_call"):
+                        c = d[2]
+                        if c.name() in ("max", "saturating_add", "wrapping_add", "checked_add", "unwrap", "expect", "clone", "deref", "unwrap_or", "max_by_key"):
+                            res.append(any(ge_old(a, assume | {l}, depth + 1) for a in c.args) if c.name() in ("max", "saturating_add", "wrapping_add", "checked_add")
+                                       else (bool(c.args) and ge_old(c.args[0], assume | {l}, depth + 1)))
+                        else:
+                            res.append(False)
+                    else:
+                        r2 = d[3]
+                        if r2["rv"] in ("use", "cast"):
+                            res.append(ge_old(r2["op"], assume | {l}, depth + 1))
+                        elif r2["rv"] in ("ref", "rawptr"):
+                            res.append(ge_old({"k": "copy", "pl": r2["pl"]}, assume | {l}, depth + 1))
+                        elif r2["rv"] in ("binop", "checked_binop") and str(r2["op"]).startswith("Add"):
+                            res.append(ge_old(r2["a"], assume | {l}, depth + 1) or ge_old(r2["b"], assume | {l}, depth + 1))
+                        else:
+                            res.append(False)
+                # an accumulator: every definition keeps it at least as large; at least one definition is anchored in the old counter without the assumption
+                return all(res) and bool(res)
+            src = rv["op"] if rv["rv"] in ("use", "cast") else None
+            ok = False
+            if src is not None:
+                ok = ge_old(src, frozenset())
+            elif rv["rv"] in ("binop", "checked_binop") and str(rv["op"]).startswith("Add"):
+                ok = ge_old(rv["a"], frozenset()) or ge_old(rv["b"], frozenset())
+            R.ob("C15-R7", "monotone:%s:%d" % (b.short, n), "the value %s stores in next_id is at least the previous counter" % b.short, ok, where=b.where(st.get("ln")),
+                 detail=None if ok else "after merging a dictionary that holds fewer identifiers the counter moves back: the next encode() returns an identifier "
+                 "already owned by another term, and decode(encode(old term)) answers the new one")
+    R.floor("C15-R7", "assignments to next_id outside the constructors", n, 2)
